@@ -228,10 +228,14 @@ structure FallbackMulti where
   deriving Repr, DecidableEq
 
 /-- `PollOpCode::set_result` of the fallback op records the result in `len` (op/managed/poll.rs).
-In the *fusion* build (io-uring + polling features, driver chosen at run time) the `mop!` wrapper's
-`PollOpCode` impl does not forward `set_result`, so it never runs. -/
-def FallbackMulti.setResult (fusion : Bool) (m : FallbackMulti) (n : Nat) : FallbackMulti :=
-  if fusion then m else { m with len := n }
+Since /repo 9127ff7 the fused wrappers (`mop!` in op/managed/fusion.rs, `fuse_op!` in macros.rs) forward
+`PollOpCode::set_result` to `self.inner.poll()`, so this runs in every build. -/
+def FallbackMulti.setResult (m : FallbackMulti) (n : Nat) : FallbackMulti := { m with len := n }
+
+/-- behaviour **before** the repair (finding F140): in the fusion build the wrapper's `PollOpCode` impl
+did not forward `set_result`, the fallback op never learned the result.  Kept for the counter-example
+theorem in `Cex/C14.lean`; not used by the driver. -/
+def FallbackMulti.setResultUnfixed (m : FallbackMulti) (_n : Nat) : FallbackMulti := m
 
 /-- `take_buffer`: `buffer.advance_to(self.len)`; the stream adapter's own `advance_to` is a no-op
 for `RecvFromMultiResult` / `RecvMsgMultiResult` -/
